@@ -50,6 +50,18 @@ func init() {
 						Queries: []eQuery{{A: []eAssign{{F: 1, V: tvStr("a kw b")}}}, {A: []eAssign{{F: 1, V: tvStr("none")}}}, {}}})
 				}
 			}
+			// generations of one builder at the boundary ids: the published index of the first generation (boundary ids,
+			// include-free and ordinary conjunctions) is kept and must report its own ids unchanged after the builder was
+			// Reset and built a next generation with other ids (compared Go-side: e2e.go answersOf)
+			for _, kind := range []string{"kgroups", "compact"} {
+				ex := func(n int64) eConj { return eConj{{F: 0, Inc: false, V: tvSlice("[]int", tvInt("int", n))}} }
+				in := func(n int64) eConj { return eConj{{F: 0, Inc: true, V: tvSlice("[]int", tvInt("int", n))}} }
+				const maxID = 1<<43 - 1
+				add(eCase{Kind: kind, Policy: "error",
+					Pre:     []eDoc{{ID: -7, Cons: []eConj{ex(1)}}, {ID: maxID, Cons: []eConj{ex(2), in(5)}}, {ID: -maxID, Cons: []eConj{{}, in(6)}}, {ID: 3, Cons: []eConj{in(5)}}},
+					Docs:    []eDoc{{ID: 100, Cons: []eConj{ex(1)}}, {ID: 200, Cons: []eConj{{}}}, {ID: -maxID + 1, Cons: []eConj{in(5), ex(5)}}, {ID: 1, Cons: []eConj{in(6)}}},
+					Queries: []eQuery{{}, {A: []eAssign{{F: 0, V: tvInt("int", 5)}}}, {A: []eAssign{{F: 0, V: tvInt("int", 1)}}}, {A: []eAssign{{F: 0, V: tvInt("int", 6)}}}, {A: []eAssign{{F: 0, V: tvInt("int", 2)}}}}})
+			}
 			rangeSplitCases(add) // ids (negative ones, several conjunction positions) through the range container's split pieces
 			n := 3000
 			if tier == "thorough" {
